@@ -347,24 +347,18 @@ M("c05-finally-normal-only", "C05", "src/ckl/nodes.py",
         for expression in self.finallyexprs:
             expression.evaluate(environment)
         return result''', "finally runs only when the block ends normally")
-M("c05-catch-first-clause", "C05", "src/ckl/nodes.py",
-  '''                if not err or e.value == err.evaluate(environment):
-                    return expr.evaluate(environment)''',
-  '''                if True:
-                    return expr.evaluate(environment)''',
-  "first catch clause handles every error")
-M("c05-swallow-unmatched", "C05", "src/ckl/nodes.py",
-  '''                if not err or e.value == err.evaluate(environment):
-                    return expr.evaluate(environment)
-            raise''', '''                if not err or e.value == err.evaluate(environment):
-                    return expr.evaluate(environment)
-            if self.catchexprs:
-                return NULL
-            raise''', "an error no clause matches is swallowed")
-M("c05-catch-by-rendering", "C05", "src/ckl/nodes.py",
-  '''                if not err or e.value == err.evaluate(environment):''',
-  '''                if not err or str(e.value) == str(err.evaluate(environment)):''',
-  "catch compares rendered text (1 vs 1.0 differ)")
+M('c05-catch-first-clause', 'C05', 'src/ckl/nodes.py',
+  '                if not err or e.value == selector:\n                    return expr.evaluate(environment)\n            raise',
+  '                if True:\n                    return expr.evaluate(environment)\n            raise',
+  'first catch clause handles every error')
+M('c05-swallow-unmatched', 'C05', 'src/ckl/nodes.py',
+  '                if not err or e.value == selector:\n                    return expr.evaluate(environment)\n            raise',
+  '                if not err or e.value == selector:\n                    return expr.evaluate(environment)\n            if self.catchexprs:\n                return NULL\n            raise',
+  'an error no clause matches is swallowed')
+M('c05-catch-by-rendering', 'C05', 'src/ckl/nodes.py',
+  '                if not err or e.value == selector:',
+  '                if not err or str(e.value) == str(selector):',
+  'catch compares rendered text (1 vs 1.0 differ)')
 M('c05-error-value-stringified', 'C05', 'src/ckl/nodes.py',
   '        if isExit(value):\n            return value\n        raise CklRuntimeError(value, value, self.pos)',
   '        if isExit(value):\n            return value\n        raise CklRuntimeError(value.asString(), value, self.pos)',
